@@ -413,6 +413,21 @@ def weighted_choice(rng: random.Random, items):
     return items[-1][0]
 
 
+def sticky_bundles(rng, ops, p=0.3):
+    """Swarm knob: with probability p every prediction of the history is made under one and the same settings bundle,
+    so that caches which only exist under a particular setting are carried across the mutating operations in between."""
+    if rng.random() >= p:
+        return ops
+    withb = [o for o in ops if o.get("bundle")]
+    if not withb:
+        return ops
+    b = rng.choice(withb)["bundle"]
+    for o in ops:
+        if "bundle" in o and o.get("op") in ("predict", "fault_predict"):
+            o["bundle"] = [list(x) for x in b]
+    return ops
+
+
 def jsonable(x):
     return json.loads(json.dumps(x, default=str))
 
